@@ -448,3 +448,5 @@ def check(case: dict[str, Any], rec: Any) -> None:
 
 
 FINDINGS: dict[str, Any] = {}
+
+LEVEL_NOTE += ' Rounds 13-14: concurrent battery requests for disjoint groups.'
